@@ -391,6 +391,12 @@ fn quads_after(text: &str, from: usize, window: usize) -> Vec<u32> {
     let bytes = text.as_bytes();
     let mut i = from;
     while i < end {
+        if bytes[i] == b'$' && text[i..].starts_with("$self4") {
+            // the keyword stands for 0.0.0.0 when it is used as a range end
+            out.push(0);
+            i += 6;
+            continue;
+        }
         if bytes[i].is_ascii_digit() {
             let mut j = i;
             while j < text.len() && (bytes[j].is_ascii_digit() || bytes[j] == b'.') {
